@@ -116,11 +116,9 @@ def rewrite_event(ctx, py: PyRepo):
 
 
 def _encl(tree, node) -> str:
-    best = '<module>'
-    for n in ast.walk(tree):
-        if isinstance(n, ast.FunctionDef) and n.lineno <= node.lineno <= getattr(n, 'end_lineno', n.lineno):
-            best = n.name
-    return best
+    from ..core.pyfacts import enclosing_def
+    f_ = enclosing_def(tree, node)
+    return f_.name if f_ is not None else '<module>'
 
 
 def conversion_scope(ctx, py: PyRepo):
